@@ -183,6 +183,109 @@ def handler (fn : String) : Option Handler :=
           | "panic" :: _ => "fail panic"
           | _ => "fail not-a-cone")
         | none => "skip bad-args" }
+  | "capsule_scaled" => some {
+      model := fun a => run (do let p ← pv3; let p' ← pv3; let r ← pf; let s ← pv3
+                                pure (match (Capsule3.mk p p' r).scaled s with
+                                  | some c => s!"capsule {fv3 c.a} {fv3 c.b} {ff c.r}" | none => "poly")) a
+      oracle := fun a o => match run (do let p ← pv3; let p' ← pv3; let r ← pf; let s ← pv3; pure (p, p', r, s)) a with
+        | some (p, p', r, s) => (match o with
+          | "capsule" :: rest => match run (do let x ← pv3; let y ← pv3; let r' ← pfo; pure (x, y, r')) rest with
+            | some (x, y, r') =>
+              -- exact membership transfer on a grid around the capsule
+              let A := q3 p; let B := q3 p'; let R := q r; let S := q3 s
+              let A' := q3 x; let B' := q3 y; let R' := q r'
+              let d2seg (a b w : V3 Rat) : Rat :=
+                let ab := b.sub a; let l2 := ab.normSq
+                let t := if l2 = 0 then 0 else max 0 (min 1 ((w.sub a).dot ab / l2))
+                (w.sub (a.add (ab.smul t))).normSq
+              let pts := (grid3 ⟨1, 1, 1⟩).map fun g => (V3.center A B).add ⟨g.x * (R + rabs (B.x - A.x)), g.y * (R + rabs (B.y - A.y)), g.z * (R + rabs (B.z - A.z))⟩
+              let bad := pts.filter fun w =>
+                let din := d2seg A B w; let dout := d2seg A' B' (w.cmul S)
+                -- skip samples within a relative band of either boundary
+                let nb (d rr : Rat) : Bool := rabs (d - rr * rr) ≤ (1 / 1000000 : Rat) * (1 + rr * rr)
+                !(nb din R) && !(nb dout R') && (decide (din ≤ R * R) != decide (dout ≤ R' * R'))
+              (match bad with
+              | [] => "pass"
+              | w :: _ => s!"fail membership-not-preserved p=({w.x},{w.y},{w.z})")
+            | none => "fail unparsable-output"
+          | ["poly"] => "pass"
+          | "panic" :: _ => "fail panic"
+          | _ => "fail unparsable-output")
+        | none => "skip bad-args" }
+  | "cylinder_scaled" => some {
+      model := fun a => run (do let hh ← pf; let r ← pf; let s ← pv3
+                                pure (match (Cylinder.mk hh r).scaled s with | some c => s!"cyl {ff c.hh} {ff c.r}" | none => "poly")) a
+      oracle := fun a o => match run (do let hh ← pf; let r ← pf; let s ← pv3; pure (hh, r, s)) a with
+        | some (hh, r, s) => (match o with
+          | ["cyl", x, y] => match FloatIO.ofHex? x, FloatIO.ofHex? y with
+            | some hh', some r' =>
+              let S := q3 s
+              let inC (h rr : Rat) (w : V3 Rat) : Bool := rabs w.y ≤ h && w.x * w.x + w.z * w.z ≤ rr * rr
+              let pts := grid3 ⟨q r, q hh, q r⟩
+              (match pts.filter (fun w => inC (q hh') (q r') (w.cmul S) != inC (q hh) (q r) w) with
+              | [] => "pass"
+              | w :: _ => s!"fail membership-not-preserved p=({w.x},{w.y},{w.z})")
+            | _, _ => "fail unparsable-output"
+          | ["poly"] => "pass"
+          | "panic" :: _ => "fail panic"
+          | _ => "fail unparsable-output")
+        | none => "skip bad-args" }
+  | "hf_triangles_at" => some {
+      model := fun a => run (do
+        let nr ← pnat; let nc ← pnat; let i ← pnat; let j ← pnat
+        let hs ← plist pf; let sc ← pv3; let zig ← pbool; let l ← pbool; let r ← pbool
+        let h (ii jj : Nat) : Float := (hs[ii * nc + jj]?).getD 0.0
+        if i + 1 ≥ nr || j + 1 ≥ nc then pure "none none" else
+        let (t1, t2) := hfTrianglesAt (Float.ofNat nr) (Float.ofNat nc) (Float.ofNat i) (Float.ofNat j)
+          (h i j) (h (i + 1) j) (h i (j + 1)) (h (i + 1) (j + 1)) sc ⟨zig, l, r⟩
+        let ft (t : Option (Triangle3 Float)) := match t with | none => "none" | some t => s!"t {fv3 t.a} {fv3 t.b} {fv3 t.c}"
+        pure s!"{ft t1} {ft t2}") a
+      oracle := fun a o => match run (do
+          let nr ← pnat; let nc ← pnat; let i ← pnat; let j ← pnat
+          let hs ← plist pf; let sc ← pv3; let zig ← pbool; let l ← pbool; let r ← pbool
+          pure (nr, nc, i, j, hs, sc, zig, l, r)) a with
+        | some (nr, nc, i, j, hs, sc, _zig, l, r) =>
+          if i + 1 ≥ nr || j + 1 ≥ nc then (if o = ["none", "none"] then "pass" else "fail triangle-outside-grid") else
+          let ptri : P (Option (List (V3 Float))) := do
+            let t ← tok
+            if t = "none" then pure none else do let a ← pv3; let b ← pv3; let c ← pv3; pure (some [a, b, c])
+          (match o with
+          | "panic" :: _ => "fail panic"
+          | _ => match run (do let t1 ← ptri; let t2 ← ptri; pure (t1, t2)) o with
+            | none => "fail unparsable-output"
+            | some (t1, t2) =>
+              if l && r then (if t1.isNone && t2.isNone then "pass" else "fail removed-cell-has-triangles") else
+              if (l && t1.isSome) || (r && t2.isSome) then "fail removed-triangle-present" else
+              if (!l && t1.isNone) || (!r && t2.isNone) then "fail triangle-missing" else
+              let S := q3 sc
+              let xAt (jj : Nat) : Rat := (-(1/2 : Rat) + (jj : Rat) / ((nc : Rat) - 1)) * S.x
+              let zAt (ii : Nat) : Rat := (-(1/2 : Rat) + (ii : Rat) / ((nr : Rat) - 1)) * S.z
+              let hAt (ii jj : Nat) : Rat := q ((hs[ii * nc + jj]?).getD 0.0) * S.y
+              let nodes : List (V3 Rat) := [(i, j), (i + 1, j), (i, j + 1), (i + 1, j + 1)].map fun (ii, jj) => ⟨xAt jj, hAt ii jj, zAt ii⟩
+              let near3 (p w : V3 Rat) : Bool := near p.x w.x && near p.y w.y && near p.z w.z
+              let tris := ([t1, t2].filterMap id).map (·.map q3)
+              if tris.any (fun t => t.any fun p => !(nodes.any (near3 p))) then "fail vertex-not-on-the-height-surface" else
+              -- coverage of the cell by the projections (exact barycentric test), only when both triangles are present
+              if l || r then "pass" else
+              let inProj (t : List (V3 Rat)) (x z : Rat) : Bool :=
+                match t with
+                | [a, b, c] =>
+                  let d := (b.x - a.x) * (c.z - a.z) - (c.x - a.x) * (b.z - a.z)
+                  if d = 0 then false else
+                  let wb := ((x - a.x) * (c.z - a.z) - (c.x - a.x) * (z - a.z)) / d
+                  let wc := ((b.x - a.x) * (z - a.z) - (x - a.x) * (b.z - a.z)) / d
+                  let e : Rat := 1 / 1000000
+                  wb ≥ -e && wc ≥ -e && wb + wc ≤ 1 + e
+                | _ => false
+              let x0 := xAt j; let x1 := xAt (j + 1); let z0 := zAt i; let z1 := zAt (i + 1)
+              let us : List Rat := [1/8, 1/2, 7/8]
+              let bad := us.flatMap fun u => us.filterMap fun v =>
+                let x := x0 + u * (x1 - x0); let z := z0 + v * (z1 - z0)
+                if tris.any (fun t => inProj t x z) then none else some (u, v)
+              (match bad with
+              | [] => "pass"
+              | (u, v) :: _ => s!"fail cell-point-not-covered u={u} v={v}"))
+        | none => "skip bad-args" }
   | "ball_scaled_nu" => some {
       model := fun _ => some "-"
       oracle := fun a o => match run (do let r ← pf; let s ← pv3; pure (r, s)) a with
